@@ -328,6 +328,32 @@ def longaxis(seed, count, tag='LONG'):
             yield case(tag + '-wide', cols, big, SCHEMES[k % 2])
 
 
+def manyatoms(seed, count, tag='MANYATOMS'):
+    """100-260 atoms: a (decorated) nominal-like scale - every object has its own property plus a few
+    shared ones - with objects that have every property placed at the front, the middle or the end,
+    duplicate rows and an object with no property."""
+    rng = random.Random(f'{seed}/{tag}')
+    for k in range(count):
+        n = rng.randint(100, 260)
+        shared = rng.randint(0, 3)
+        m = n + shared
+        rows = []
+        for i in range(n):
+            r = 1 << i
+            for j in range(shared):
+                if rng.random() < .5:
+                    r |= 1 << (n + j)
+            rows.append(r)
+        full = (1 << m) - 1
+        for _ in range(rng.randint(1, 3)):
+            rows.insert(rng.choice([0, 0, len(rows) // 2, len(rows)]), full)
+        if k % 2:
+            rows.insert(rng.randrange(len(rows)), rows[rng.randrange(len(rows))])
+        if k % 3 == 0:
+            rows.insert(rng.randrange(len(rows)), 0)
+        yield case(tag, rows, m, SCHEMES[k % len(SCHEMES)], rng)
+
+
 def repeated(seed, count, tag='REPEATED', lo=80, hi=500):
     """A small table (3-6 properties, 3-8 distinct rows) with every row repeated 80-500 times:
     large extents with the structure (joint implications, conjunction columns) of a small table."""
@@ -470,6 +496,8 @@ def ctx_stream(tier, seed, *, scale=1.0, with_wide=True, max_rnd=None, with_huge
         if with_wide:
             yield from wide(seed, int(48 * scale))
         yield from manyrows(seed, int(12 * scale))
+        if with_wide:
+            yield from manyatoms(seed, int(6 * scale))
         yield from repeated(seed, int(8 * scale), lo=40, hi=150)     # Lindig is ~ |G|^2 per concept
         yield from (c for c in longaxis(seed, 2) if with_wide or len(c['properties']) < 64)
         if with_huge:
@@ -486,6 +514,8 @@ def ctx_stream(tier, seed, *, scale=1.0, with_wide=True, max_rnd=None, with_huge
         if with_wide:
             yield from wide(seed, int(1200 * scale))
         yield from manyrows(seed, int(300 * scale))
+        if with_wide:
+            yield from manyatoms(seed, int(80 * scale))
         yield from repeated(seed, int(150 * scale), lo=40, hi=220)
         yield from (c for c in longaxis(seed, max(2, int(24 * scale))) if with_wide or len(c['properties']) < 64)
         if with_huge:
